@@ -41,12 +41,13 @@ func haveStrace() bool {
 }
 
 // runKilledAt runs ops in a driver under strace; the n-th traced call on path
-// (counted by strace per thread of the driver) is answered with SIGKILL.
+// (counted by strace per thread of the driver and per system call name: sysname
+// says which call is counted) is answered with SIGKILL.
 // killed reports whether the driver was killed that way.
-func runKilledAt(drv, cwd string, ops []proto.Op, path string, n int, timeout time.Duration) (out *core.RunOut, calls []sysCall, killed bool) {
+func runKilledAt(drv, cwd string, ops []proto.Op, path, sysname string, n int, timeout time.Duration) (out *core.RunOut, calls []sysCall, killed bool) {
 	logf := filepath.Join(cwd, ".strace.log")
 	via := []string{"strace", "-f", "-qq", "-s", "0", "-o", logf, "-P", path, "-e", "trace=write,pwrite64,fsync",
-		"-e", fmt.Sprintf("inject=write,pwrite64,fsync:signal=SIGKILL:when=%d", n)}
+		"-e", fmt.Sprintf("inject=%s:signal=SIGKILL:when=%d", sysname, n)}
 	out = core.RunScriptVia(via, drv, cwd, ops, timeout, "VERIF_LOCK_THREAD=1")
 	f, err := os.Open(logf)
 	if err != nil {
@@ -106,7 +107,7 @@ func straceWorks(c *core.Ctx, drv string) bool {
 	s.open(true, 0, "d1", true)
 	s.sql("CREATE TABLE t (a int)")
 	tbl := filepath.Join(dir, "data", "d1", "tbl")
-	_, calls, killed := runKilledAt(drv, dir, s.ops, tbl, 2, 60*time.Second)
+	_, calls, killed := runKilledAt(drv, dir, s.ops, tbl, "pwrite64", 2, 60*time.Second)
 	if !killed || len(calls) < 2 {
 		c.Count("strace_injection_does_not_work_here", 1)
 		return false
@@ -129,7 +130,7 @@ func syscallKillsTbl(c *core.Ctx, drv, dir string, ch *crashHist, ops []proto.Op
 	{
 		kd := filepath.Join(dir, "sk0")
 		os.MkdirAll(kd, 0755)
-		out, calls, killed := runKilledAt(drv, kd, ops, filepath.Join(kd, "data", "d1", "tbl"), 65535, 120*time.Second)
+		out, calls, killed := runKilledAt(drv, kd, ops, filepath.Join(kd, "data", "d1", "tbl"), "pwrite64", 65535, 120*time.Second)
 		removeAll(kd)
 		if killed || out.Died {
 			c.Inconclusive("strace", fmt.Sprintf("history %d under strace did not run to its end: %s", ch.idx, core.FatalTail(out.Stderr)))
@@ -150,7 +151,7 @@ func syscallKillsTbl(c *core.Ctx, drv, dir string, ch *crashHist, ops []proto.Op
 			return
 		}
 		tbl := filepath.Join(kd, "data", "d1", "tbl")
-		out, calls, killed := runKilledAt(drv, kd, ops, tbl, n, 120*time.Second)
+		out, calls, killed := runKilledAt(drv, kd, ops, tbl, "pwrite64", n, 120*time.Second)
 		if !killed {
 			removeAll(kd)
 			c.Inconclusive("strace", fmt.Sprintf("history %d: write call %d of %d was not reached under strace", ch.idx, n, total))
@@ -237,7 +238,86 @@ func classifySyscallKill(c *core.Ctx, ch *crashHist, kd string, n int, out *core
 			dir: kd, cands: cands(last), ignore: ignore(k), label: "syscall_kill_" + trigger + "_" + pos, real: true,
 			replay: map[string]interface{}{"history": ch.idx, "template": ch.name, "flush_class": ch.class, "statements": stmtTexts[:last+1],
 				"operation_in_flight": ops[k].K, "page_offsets_written_by_the_cut_flush": written, "killed_on_entry_to_pwrite_at_offset": kc.off,
-				"how": "run the statements with the timer off under strace -f -P data/d1/tbl -e inject=write,pwrite64,fsync:signal=SIGKILL:when=" + fmt.Sprint(n) + ", then InitStorage on what is left"},
+				"how": "run the statements with the timer off under strace -f -P data/d1/tbl -e inject=pwrite64:signal=SIGKILL:when=" + fmt.Sprint(n) + ", then InitStorage on what is left"},
 		}
 	}
+}
+
+// syscallKillsWal: the same for the log file (C03). stmtOf gives, for a driver
+// operation, the statement it executes and the model state before it.
+func syscallKillsWal(c *core.Ctx, drv, dir string, histIdx int, ops []proto.Op, stmtOf func(op int) (*proto.Stmt, *model.DB), seed uint64, maxKills int) []*crashJob {
+	var jobs []*crashJob
+	total, nwrite, nsync := 0, 0, 0
+	{
+		kd := filepath.Join(dir, "sk0")
+		os.MkdirAll(kd, 0755)
+		out, calls, killed := runKilledAt(drv, kd, ops, filepath.Join(kd, "data", "d1", "wal"), "write", 65535, 120*time.Second)
+		removeAll(kd)
+		if killed || out.Died {
+			c.Inconclusive("strace", fmt.Sprintf("armed history %d under strace did not run to its end: %s", histIdx, core.FatalTail(out.Stderr)))
+			return nil
+		}
+		for _, cl := range calls {
+			if cl.name == "fsync" {
+				nsync++
+			} else {
+				nwrite++
+			}
+		}
+		total = len(calls)
+		c.Count("write_and_fsync_calls_on_the_log_seen_by_strace", int64(total))
+	}
+	if total > maxKills {
+		total = maxKills
+	}
+	var mu sync.Mutex
+	core.ParallelFor(total, 6, func(i int) {
+		// strace counts each system call name on its own: the writes first,
+		// then the fsyncs
+		n, sysname := i+1, "write"
+		if n > nwrite {
+			n, sysname = n-nwrite, "fsync"
+		}
+		kd := filepath.Join(dir, fmt.Sprintf("sk%d", i+1))
+		os.MkdirAll(kd, 0755)
+		out, calls, killed := runKilledAt(drv, kd, ops, filepath.Join(kd, "data", "d1", "wal"), sysname, n, 120*time.Second)
+		if !killed || len(calls) == 0 {
+			removeAll(kd)
+			c.Inconclusive("strace", fmt.Sprintf("armed history %d: %s call %d on the log (%d writes, %d fsyncs) was not reached under strace", histIdx, sysname, n, nwrite, nsync))
+			return
+		}
+		c.Count("syscall_kills", 1)
+		st, pre := stmtOf(out.LastBeg)
+		if st == nil {
+			c.Count("syscall_kills_outside_a_statement", 1)
+			removeAll(kd)
+			return
+		}
+		fail, _, rowOps, err := pre.Plan(st)
+		if fail != "" || err != nil {
+			c.Inconclusive("model", "statement under strace rejected by the model")
+			removeAll(kd)
+			return
+		}
+		nOps := len(rowOps)
+		cands := make([]*model.DB, nOps+1)
+		for j := 0; j <= nOps; j++ {
+			cm := pre.Clone()
+			cm.ApplyOps(st, rowOps, j)
+			cands[nOps-j] = cm
+		}
+		kc := calls[len(calls)-1]
+		r := core.NewRand(seed + uint64(i))
+		j := &crashJob{
+			dir: kd, cands: cands, cont: r.Range(3, 6), real: true, seed: seed + uint64(i),
+			label: fmt.Sprintf("syscall_kill_%s_before_%s", st.Kind, kc.name),
+			replay: map[string]interface{}{"history": histIdx, "statement_in_flight": clip(model.RenderStmt(st, model.Plain), 400), "row_operations": nOps,
+				"killed_on_entry_to": kc.name, "bytes": kc.length,
+				"how": "run history ARMED/<history> of this seed with the timer off under strace -f -P data/d1/wal -e inject=" + sysname + ":signal=SIGKILL:when=" + fmt.Sprint(n) + ", then InitStorage on what is left"},
+		}
+		mu.Lock()
+		jobs = append(jobs, j)
+		mu.Unlock()
+	})
+	return jobs
 }
